@@ -75,6 +75,11 @@ var c20Handshakes = []string{
 	"Connection: UPGRADE\r\nUpgrade: websocket\r\n",
 }
 
+// c20Dial opens the client's connection to the proxy (plain TCP unless a part replaces it);
+// c20BeforeLastWrite, if set, runs before the client's final write of a session it closes.
+var c20Dial = func(addr string) (net.Conn, error) { return net.DialTimeout("tcp", addr, 5*time.Second) }
+var c20BeforeLastWrite func()
+
 func c20Session(h *helios, be *wire.Backend, script []c20Step, serverCloses bool) (res c20Result) {
 	return c20SessionHS(h, be, script, serverCloses, 0)
 }
@@ -129,7 +134,7 @@ func c20SessionHS(h *helios, be *wire.Backend, script []c20Step, serverCloses bo
 		srvDone <- ""
 	}})
 	defer be.Next(nil)
-	c, err := net.DialTimeout("tcp", h.addr, 5*time.Second)
+	c, err := c20Dial(h.addr)
 	if err != nil {
 		res.clientErr = "dial: " + err.Error()
 		return
@@ -161,6 +166,9 @@ func c20SessionHS(h *helios, be *wire.Backend, script []c20Step, serverCloses bo
 		if st.FromClient {
 			if st.PauseMs > 0 {
 				time.Sleep(time.Duration(st.PauseMs) * time.Millisecond)
+			}
+			if i == len(script)-1 && !serverCloses && c20BeforeLastWrite != nil {
+				c20BeforeLastWrite() // the client's last bytes and its close leave together
 			}
 			if _, err := c.Write(c20Data(i, st.N)); err != nil {
 				res.clientErr = fmt.Sprintf("step %d: client write: %v", i, err)
